@@ -269,6 +269,9 @@ class PersLandscapeApprox(PersLandscape):
             raise ValueError("Stop values of grids do not coincide")
         if self.num_steps != other.num_steps:
             raise ValueError("Number of steps of grids do not coincide")
+        # operands created with compute=False are computed now
+        self.compute_landscape()
+        other.compute_landscape()
         self_pad, other_pad = union_vals(self.values, other.values)
         return PersLandscapeApprox(
             start=self.start,
@@ -280,6 +283,7 @@ class PersLandscapeApprox(PersLandscape):
 
     def __neg__(self):
         """Negates an approximate persistence landscape"""
+        self.compute_landscape()
         return PersLandscapeApprox(
             start=self.start,
             stop=self.stop,
@@ -308,6 +312,7 @@ class PersLandscapeApprox(PersLandscape):
             The real scalar to be multiplied.
         """
         super().__mul__(other)
+        self.compute_landscape()
         return PersLandscapeApprox(
             start=self.start,
             stop=self.stop,
@@ -372,4 +377,5 @@ class PersLandscapeApprox(PersLandscape):
         Returns the supremum norm of an approximate persistence landscape
 
         """
+        self.compute_landscape()
         return np.max(np.abs(self.values))
